@@ -1,14 +1,19 @@
 #!/bin/bash
 # usage: trymutant.sh <patch.diff> <prop>...   — applies the patch to /repo, runs the quick checks, reverts.
+# The evidence files are saved and restored: committed evidence must come from runs on the unchanged tree.
 set -u
 patch="$1"; shift
 cd /repo || exit 2
 if ! git diff --quiet; then echo "repo dirty"; exit 2; fi
 git apply "$patch" || { echo "patch does not apply"; exit 2; }
+bk=$(mktemp -d); cp -a /verif/evidence/. "$bk"/ 2>/dev/null
 for p in "$@"; do
-  out=$(cd /verif && timeout 900 bin/check "$p" 2>&1)
+  out=$(cd /verif && timeout 1800 bin/check "$p" 2>&1)
   rc=$?
   echo "== $p rc=$rc"
   echo "$out" | grep -E "VIOLATION|KNOWN|^\[$p\]" | cut -c1-400 | head -8
 done
 git -C /repo checkout -- .
+rm -rf /verif/evidence; mkdir -p /verif/evidence; cp -a "$bk"/. /verif/evidence/; rm -rf "$bk"
+# regenerate the facts for the unchanged tree
+[ -x /verif/build/extract ] && /verif/build/extract /repo /verif/lean/BB/Gen >/dev/null
